@@ -35,7 +35,9 @@ def cases(draw):
             lines.append(f"{nid};{cid};0;0;{draw(st.integers(0, 25))};{draw(gen.nice_text)}")
             lines.append(f"{nid};{cid};1;0;{draw(st.sampled_from([0, 1, 24]))};{draw(gen.nice_text)}")
     change1 = draw(st.sampled_from(["1;0;1;0;24;c1", "1;255;3;0;11;sketch-c1", "5;255;0;0;17;2.0", "1;255;3;0;0;77"]))
-    change2 = draw(st.sampled_from(["1;0;1;0;25;c2", "1;255;3;0;12;9.9", "6;255;0;0;17;2.0", "2;255;3;0;0;33", "SHRINK", "SHRINK"]))
+    change2 = draw(st.sampled_from(["1;0;1;0;25;c2", "1;255;3;0;12;9.9", "6;255;0;0;17;2.0", "2;255;3;0;0;33", "SHRINK", "SHRINK", "NONE", "NONE"]))
+    if change2 == "NONE":
+        change1 = "5;255;0;0;17;2.0"  # a change that always takes effect: the retry alone has to persist it
     if change2 == "SHRINK":
         # the serialised state gets shorter between the failed and the next attempt
         nid0 = int(lines[0].split(";")[0])
@@ -295,7 +297,7 @@ def _scenario(case, fault, stats=None, tmp=None):
         candidates = [s_saved, drive.typed(drive.projection(life.gw))]
         count = 0
         if fault[0] == "oserror":
-            plan = faultfs.FaultPlan(fault[1], "fail")
+            plan = faultfs.FaultPlan(fault[1], "fail", errno_=(5, 13, 28, 30)[(fault[1] + len(case["state"])) % 4])
             with faultfs.Layer(plan) as layer:
                 escaped = life.attempt()
             count = len(layer.trace)
@@ -341,8 +343,9 @@ def _scenario(case, fault, stats=None, tmp=None):
                 f"stale_file_marked_saved.{ext}", full_case,
                 f"{where}: the state is no longer marked unsaved but the file lacks the current state: {first_diff(current, on_disk)}",
             )
-        # ---- heal: state change, clean attempt
-        life.line(case["change2"])
+        # ---- heal: state change (or none at all: the retry alone must persist what the failed attempt could not), clean attempt
+        if case["change2"] != "NONE":
+            life.line(case["change2"])
         escaped = life.attempt()
         if escaped is not None:
             raise Violation(f"clean_attempt_fails.{flavour}", full_case, f"{where}: the next fault-free attempt raised/was not armed: {escaped!r}")
@@ -406,7 +409,8 @@ def scenario_initial(case, k, stats=None, tmp=None):
                 raise Violation(f"partial_state_on_disk.{ext}", full_case, f"{where}: a restart would load a state that is neither the last saved nor the current one: {first_diff(s_prev, on_disk)}")
             if not life.armed():
                 raise Violation(f"schedule_stops.{flavour}", full_case, f"{where}: after the faulty first save no further save is scheduled")
-            life.line(case["change2"])
+            if case["change2"] != "NONE":
+                life.line(case["change2"])
             escaped = life.attempt()
             if escaped is not None:
                 raise Violation(f"clean_attempt_fails.{flavour}", full_case, f"{where}: the next fault-free attempt raised/was not armed: {escaped!r}")
@@ -516,6 +520,11 @@ def draw_cases(n, seed_value):
     for flavour in ("threaded", "asyncio"):
         if out and not any(c["ext"] == "pickle" and c["flavour"] == flavour and c.get("wake") for c in out):
             out.append(make_sleepy(dict(out[-1], ext="pickle", flavour=flavour)))
+    if out and not any(c["change2"] == "NONE" for c in out):
+        out.append(dict(out[0], change2="NONE", change1="5;255;0;0;17;2.0"))
+    for flavour in ("threaded", "asyncio"):
+        if out and not any(c["change2"] == "NONE" and c["flavour"] == flavour for c in out):
+            out.append(dict(out[0], change2="NONE", change1="5;255;0;0;17;2.0", flavour=flavour))
     if out and not any(c.get("shape") == "bare" for c in out):
         out.append(dict(out[0], shape="bare"))
     have = {(c["ext"], c["flavour"]) for c in out}
